@@ -82,4 +82,18 @@ NameVerdict(b, off) ==
   IF d.ok /\ d.hops > MaxHops THEN [v |-> "reject", name |-> <<>>, hops |-> d.hops, why |-> "hops"]
   ELSE IF d.ok THEN [v |-> "ok", name |-> d.name, hops |-> d.hops, why |-> "-"]
   ELSE [v |-> "reject", name |-> <<>>, hops |-> 0, why |-> d.why]
+
+(* Bounded memory: "allocates memory bounded by a fixed multiple of the input  *)
+(* length regardless of the section counts, RDLENGTHs and compression pointers *)
+(* the input claims".  The multiple is generous (a 5-octet question becomes a  *)
+(* struct with a string, slices grow by doubling); the additive term is what a *)
+(* call costs on an empty input (receiver, error value, header) and is kept    *)
+(* well below what any 16-bit length field can claim (65535 elements of one    *)
+(* octet), so that an allocation that follows a CLAIM instead of the input is  *)
+(* visible on a 30-octet input whatever the element size.  n = input length,   *)
+(* the bound is in octets allocated by one call (steady state: lazily built    *)
+(* tables of the first call do not count).                                     *)
+AllocK == 512
+AllocC == 4096
+AllocBound(n) == AllocK * n + AllocC
 =============================================================================
